@@ -50,7 +50,9 @@ def parseBoardCells (checked : Bool) : List Char → Nat → List (Option (Color
   | c :: rest, idx, cells =>
     if '1' ≤ c ∧ c ≤ '8' then
       let n := idx + (c.toNat - '0'.toNat)
-      if n ≥ 256 then (if checked then .panic else parseBoardCells checked rest (n % 256) cells)
+      -- `location_index.checked_add(digit).ok_or(())?` (since the fix of F5; before it this was
+      -- `+=`, a panic with overflow checks and a wrap-around without)
+      if n ≥ 256 then .err
       else parseBoardCells checked rest n cells
     else if c = ' ' then .ok cells
     else if c = '/' then parseBoardCells checked rest idx cells
